@@ -27,6 +27,9 @@ def step (evs : Array Event) (s : St) (st : String) : St :=
     match (s.ctx.getD {}).update p with
     | .ok c => { s with ctx := some c, cur := i }
     | .error v => { s with bad := some v.coarse }
+  | 'c' :: rest =>
+    let i := (String.ofList rest).toNat!
+    { s with provs := s.provs.set! i [] }
   | 'm' :: rest =>
     match (String.ofList rest).splitOn ":" with
     | [is, js] =>
